@@ -106,6 +106,7 @@ func (e *C15) one(ctx *core.Ctx) {
 	eds.Status.Desired = int32(targeted)
 	var prev []string
 	prevInvalid := false
+	_ = prevInvalid
 	if r.Intn(2) == 0 {
 		for _, ni := range nodes {
 			if len(prev) < want-1 && valid(ni) && r.Intn(2) == 0 {
@@ -136,7 +137,7 @@ func (e *C15) one(ctx *core.Ctx) {
 	isPercent := rep.Type == intstr.String
 	desc := map[string]any{"replicas": rep.String(), "resolvedAgainstTargeted": want, "targeted": targeted, "antiAffinity": useAA, "selector": useSel, "nodes": nodes, "previous": prev}
 	attrsBase := func(phase string) map[string]string {
-		return map[string]string{"replicas.kind": map[bool]string{true: "percent", false: "int"}[isPercent], "antiAffinity": fmt.Sprint(useAA), "phase": phase, "prevInvalid": fmt.Sprint(prevInvalid)}
+		return map[string]string{"replicas.kind": map[bool]string{true: "percent", false: "int"}[isPercent], "antiAffinity": fmt.Sprint(useAA), "phase": phase}
 	}
 	key := fmt.Sprintf("%s|%v|%v|%v|%v", rep.String(), useAA, useSel, nodes, prev)
 	if ctx.Distinct("nontrivial", key) && isPercent && useAA {
@@ -196,19 +197,31 @@ func (e *C15) one(ctx *core.Ctx) {
 			ctx.Count("C15.selection-errors")
 		}
 		seen := map[string]bool{}
+		// when fewer valid nodes exist than requested the reconcile must report an error and the
+		// stored list is then left as it was (the statement leaves its content open in that state)
+		excused := out.Err != nil && nvalid < wantNow
 		for _, x := range sel {
 			if seen[x] {
 				fail("C15.distinct", nil)
 			}
 			seen[x] = true
 			ni, ok := byName[x]
+			if excused {
+				continue
+			}
+			origin := "newly-added"
+			for _, p := range prevList {
+				if p == x {
+					origin = "kept-from-previous-list"
+				}
+			}
 			switch {
 			case !ok:
-				fail("C15.valid", map[string]string{"cause": "node-does-not-exist"})
+				fail("C15.valid", map[string]string{"cause": "node-does-not-exist", "origin": origin})
 			case !ni.Fit:
-				fail("C15.valid", map[string]string{"cause": "node-not-eligible"})
+				fail("C15.valid", map[string]string{"cause": "node-not-eligible", "origin": origin})
 			case useSel && !ni.Sel:
-				fail("C15.valid", map[string]string{"cause": "node-does-not-match-canary-selector"})
+				fail("C15.valid", map[string]string{"cause": "node-does-not-match-canary-selector", "origin": origin})
 			}
 		}
 		for _, p := range prevList {
@@ -245,7 +258,7 @@ func (e *C15) one(ctx *core.Ctx) {
 		zoneCount := map[string]int{}
 		zones := map[string]bool{}
 		for _, ni := range nodesNow {
-			if !useSel || ni.Sel {
+			if valid(ni) {
 				zones[ni.Zone] = true
 			}
 		}
@@ -267,9 +280,16 @@ func (e *C15) one(ctx *core.Ctx) {
 				}
 			}
 			if useAA && len(zones) > 0 {
+				// spreading: a newly added node must not push its value above ceil(replicas / #values)
+				// while an unselected valid node of a value still below that quota existed
 				limit := (wantNow + len(zones) - 1) / len(zones)
 				if zoneCount[byName[x].Zone] > limit {
-					fail("C15.spread", nil)
+					for _, y := range nodesNow {
+						if !seen[y.Name] && valid(y) && zoneCount[y.Zone] < limit {
+							fail("C15.spread", nil)
+							break
+						}
+					}
 				}
 			}
 		}
